@@ -39,8 +39,16 @@ def main(tier, seed):
     chk.bounded.append({"name": "callee-contract conformance (unwrap idempotent / = spec unwrap; forwardref -> ForwardRef) "
                                 "on the closed key family", "evaluations": n, "distinct_nontrivial": n, "failures": len(bad),
                         "rule": "3 base types x {itself, NewType, TypeAliasType, string alias, Final, ForwardRef}"})
-    for b in bad:
-        chk.errors.append("assumed callee contract does not hold on the real dependency: " + b)
+    if bad:
+        # a callee (inspection.unwrap / refs.forwardref) no longer satisfies the contract the proof uses: the proof is void for the
+        # current tree. If the reference-model search shows a lookup sequence that now goes wrong it is a violation of C16 with a
+        # replayable input; otherwise it stays undecided (checker error), never a silent pass.
+        fails, n2, _d = c16_concrete.search(seed=seed, exhaustive_len=2, random_n=2000, stop_at=1)
+        if fails:
+            chk.violation("callee-contract-broken :: lookups-disagree-with-the-reference-model", {"found": True, "kind": "c16-sequence", "case": fails[0], "callee": bad[:2]}, True)
+        else:
+            for b in bad:
+                chk.errors.append("assumed callee contract does not hold on the real dependency: " + b)
     if tier == "thorough":
         fails, n, d = c16_concrete.search(seed=seed, exhaustive_len=3, random_n=20000, stop_at=3)
         chk.bounded.append({"name": "bounded cross-check: operation sequences vs reference model on the real TypeContext",
